@@ -52,6 +52,7 @@ type Ctx struct {
 	seen      map[uint64]struct{}
 	start     time.Time
 	deadline  time.Time
+	sliceEnd  time.Time
 	trace     *os.File
 	sub       string
 	sampleCap int
@@ -146,7 +147,7 @@ func (c *Ctx) Sample(v any) {
 // Expired reports whether the wall-clock guard fired; the caller stops enumerating
 // and the run is reported as not exhaustive (never as an alarm).
 func (c *Ctx) Expired() bool {
-	if time.Now().After(c.deadline) {
+	if time.Now().After(c.deadline) || !c.sliceEnd.IsZero() && time.Now().After(c.sliceEnd) {
 		if c.Res.Exhaustive {
 			c.Res.Exhaustive = false
 			c.Note("time guard fired in %s after %.0fs; enumeration stopped early", c.sub, time.Since(c.start).Seconds())
@@ -155,6 +156,18 @@ func (c *Ctx) Expired() bool {
 	}
 	return false
 }
+
+// Slice gives the enumeration that follows 1/parts of the time left before the deadline (EndSlice lifts it): open-ended
+// enumerations that share one wall-clock guard each get their turn.
+func (c *Ctx) Slice(parts int) {
+	left := time.Until(c.deadline)
+	if left < 0 {
+		left = 0
+	}
+	c.sliceEnd = time.Now().Add(left / time.Duration(max(parts, 1)))
+}
+
+func (c *Ctx) EndSlice() { c.sliceEnd = time.Time{} }
 
 func (c *Ctx) NotExhaustive(why string) {
 	c.Res.Exhaustive = false
